@@ -120,6 +120,26 @@ theorem C20_fifo_order (ops : List LOp) (lim : Lim) (now : Nat) :
     s.served ++ waitingList s.o = s.arrivals := by
   exact (lrun_fifo ops _ (by intro _; rfl) (by simp [waitingList])).1
 
+/-- **Bytes follow grants.** Over any history of grants and reads on any number of file connections, counted from
+any moment on: the bytes moved since then are at most the tokens granted since then plus the tokens the connections
+were holding at that moment — at most one grant per connection (`gmax` = 128 B under a limit, 8192 B if the grant
+was taken while no limit was in force). Together with `C20_window_piecewise_partial` (a bound on the *grants* of a
+window) this bounds the *bytes* of a window: `Lmax·T + Lmax + quanta + k·gmax`. -/
+theorem C20_bytes_follow_grants (s : XSt) (evs : List XEv) (gmax : Nat) (hh : ∀ x ∈ s.holding, x ≤ gmax) :
+    (xrun s evs).moved - s.moved ≤ ((xrun s evs).granted - s.granted) + s.holding.length * gmax := by
+  obtain ⟨h1, h2, h3, _⟩ := xrun_inv evs s
+  have := sum_le_of_all_le s.holding gmax hh
+  omega
+
+/-- The term `k·gmax` cannot be dropped — the literal statement "bytes moved in a window ≤ what the limit grants in
+that window" is **false** of the download direction as it stands (known finding `C20-inflight-read-grants`, replayed
+on the real `receive_file` by the check): two connections were each granted 128 B before the window began; in the
+window nothing is granted, yet 256 B move. -/
+theorem C20_bytes_window_counterexample :
+    let s : XSt := xrun { holding := [0, 0], granted := 0, moved := 0 } [.grant 0 128, .grant 1 128]
+    ¬ ((xrun s [.move 0 128, .move 1 128]).moved - s.moved ≤ (xrun s [.move 0 128, .move 1 128]).granted - s.granted) := by
+  decide
+
 /-- the library's re-poll interval is at least the 10 ticks assumed above, and every positive
 limit is at least the 1024 B/s assumed above (constants regenerated from the source). -/
 theorem C20_constants : 10 * 1000 ≤ intervalMs * tps ∧ 1024 ≤ 1 * bytesPerKb ∧ minBucket ≤ bytesPerKb := by
@@ -136,6 +156,8 @@ example : (polls { L := 1024, bucket := 0, last := 0 } 0 (List.replicate 16 10))
 example : (lrun { o := { lim := { L := 1024, bucket := 300, last := 0 }, holder := none, queue := [] }, now := 0,
                   arrivals := [], served := [] }
     [.arrive 7 0, .arrive 8 0, .arrive 9 0, .arrive 5 1, .wake 200, .wake 200]).served = [7, 8, 9, 5] := by decide
+example : (xrun { holding := [0, 0, 0], granted := 0, moved := 0 }
+    [.grant 0 128, .grant 2 8192, .move 2 100, .move 0 128, .grant 0 128]).moved = 228 := by decide
 example : 0 < (blockPolls { L := 1024, bucket := 0, last := 0 } 0 (List.replicate 26 (3, 2, 3, 2))).2.2 := by decide
 
 end AioslskVerif.C20
